@@ -117,6 +117,10 @@ def r1_cell(chk: Check) -> None:
         g = cfg_of(f)
         here = g.nodes_of(s)
         consumed = [nid for n_ in walk_body(f.node) if isinstance(n_, ast.Assign) and any(isinstance(t, ast.Attribute) and t.attr == "filter_set" for t in n_.targets) and isinstance(n_.value, ast.Name) and n_.value.id == cell for nid in g.nodes_of(n_)]
+        # ... or saved in a local first (`current = cell`) that is stored on the hook later
+        saved = {n_.targets[0].id for n_ in walk_body(f.node) if isinstance(n_, ast.Assign) and len(n_.targets) == 1 and isinstance(n_.targets[0], ast.Name) and isinstance(n_.value, ast.Name) and n_.value.id == cell
+                 and any(isinstance(w_, ast.Assign) and any(isinstance(t, ast.Attribute) and t.attr == "filter_set" for t in w_.targets) and isinstance(w_.value, ast.Name) and w_.value.id == n_.targets[0].id for w_ in walk_body(f.node))}
+        consumed += [nid for n_ in walk_body(f.node) if isinstance(n_, ast.Assign) and len(n_.targets) == 1 and isinstance(n_.targets[0], ast.Name) and n_.targets[0].id in saved and isinstance(n_.value, ast.Name) and n_.value.id == cell for nid in g.nodes_of(n_)]
         passes_on = any(isinstance(a, ast.Name) and a.id == cell for a in c.args[1:]) or any(isinstance(k.value, ast.Name) and k.value.id == cell for k in c.keywords)
         in_reject = any(isinstance(a, ast.ExceptHandler) and any(isinstance(x, ast.Raise) for x in walk_body(a)) for a in ancestors(s))
         construct = f"{f.name}: pending filters survive `{norm(s)[:48]}`"
